@@ -588,11 +588,15 @@ pub mod m {
         std::mem::forget(sm);
         std::mem::forget(state);
     }
-    #[kani::proof]
-    #[kani::stub(std::fmt::format, stub_format)]
-    #[kani::stub(routee_compass_core::model::state::state_model::StateModel::get_names, stub_names)]
-    #[kani::unwind(10)]
-    pub fn speed_model_edge_45kph() { speed_model(45.0) }
+    /// documented attempt, in no tier: no verdict in 900 s
+    pub mod attempts {
+        use super::*;
+        #[kani::proof]
+        #[kani::stub(std::fmt::format, stub_format)]
+        #[kani::stub(routee_compass_core::model::state::state_model::StateModel::get_names, stub_names)]
+        #[kani::unwind(10)]
+        pub fn speed_model_edge_45kph() { speed_model(45.0) }
+    }
 }
 
 /// L3 - one edge of a route: `EdgeTraversal::{forward_traversal, reverse_traversal}` on the
